@@ -12,13 +12,15 @@ def harnesses(tier):
         H.append(BHarness('R_HydroDensitySubGrid_%dx%dx%d' % s, 'c09_restart.cpp', 'h_r_subgrid', defs=['NCX=%d' % s[0], 'NCY=%d' % s[1], 'NCZ=%d' % s[2]], cflags=cf, timeout=1200, maxsteps=6000000,
             what='HydroDensitySubGrid built by the ordinary constructor from a symbolic box, dumped and restarted: anchor, cell size, INVERSE cell size, cell counts (incl. the derived ny*nz), volume, inverse volume, areas, neighbours, owner, cell variables, limiters equal field by field; rewrite yields the same tape',
             bound='%dx%dx%d cells, box symbolic reals (sides > 0), neighbour table / owner / selected cell fields symbolic' % s))
+    H.append(BHarness('R_SingleSupernova', 'c09_sources.cpp', 'h_r_supernova', cflags=cf, timeout=900, maxsteps=3000000, what='SingleSupernovaPhotonSourceDistribution dumped before or after the explosion: position, lifetime, luminosity, energy and the exploded flag restored, same number of sources right after the restart; rewrite identical', bound='all fields symbolic, flag either value'))
+    H.append(BHarness('R_SingleStar', 'c09_sources.cpp', 'h_r_singlestar', cflags=cf, timeout=900, maxsteps=3000000, what='SingleStarPhotonSourceDistribution: position and luminosity restored; rewrite identical', bound='all fields symbolic'))
     return H
 
 def run(tier, only=None):
     ev = Evidence('C09', tier); work = Work('C09')
     ev.stubs += ['RestartWriter / RestartReader -> typed tape (env/tape/verif_tape.hpp): every write appends (type tag, value), every read checks the tag']
     ev.assumptions += ['IEEE-UF: derived fields compared as terms (n/L vs 1/(L/n) are different terms unless provably equal); candidates are replayed on the natively compiled real classes']
-    ev.outside += ['headline clause: a whole hydro run dumped at step k and restarted is bit-identical at every later step; chains of restarts; optional components (mask, turbulence, sources); ParameterFile/YAMLDictionary restart (strings/maps); LiveOutputManager',
+    ev.outside += ['headline clause: a whole hydro run dumped at step k and restarted is bit-identical at every later step; chains of restarts; optional components (mask, turbulence, random source distributions); ParameterFile/YAMLDictionary restart (strings/maps); LiveOutputManager',
                    'this is the unit-level NECESSARY condition (component state equality), not sufficient for whole-run equivalence']
     try:
         hb = [h for h in harnesses(tier) if not only or h.name.startswith(only)]
